@@ -3,8 +3,10 @@
    nonce is an argument), Decrypt, EncryptPrivateKey / DecryptPrivateKey with
    helpers.go:DecodePrivateKey for the three supported schemes (at the level of the encoded key
    bytes).  [cipher] is the block cipher: key -> block -> block; ModelAes.aes256 when running. *)
+From Coq Require Import ZArith.
 From Common Require Import Bytes Outcome Blake2b.
 From C37 Require Export ModelGcm.
+From C37 Require Gen.
 Local Open Scope N_scope.
 
 Section Keystore.
@@ -42,27 +44,48 @@ Section Keystore.
   (* order of the secp256k1 group *)
   Definition secp_n : N := 115792089237316195423570985008687907852837564279074904382605163141518161494337.
 
+  (* private key lengths: the constants PrivateKeyLength of lib/crypto/{ed25519,sr25519,
+     secp256k1}, read from the Go source on every run (Gen.v) *)
+  Definition ed_len : nat := Z.to_nat Gen.ed25519_private_key_length.
+  Definition sr_len : nat := Z.to_nat Gen.sr25519_private_key_length.
+  Definition secp_len : nat := Z.to_nat Gen.secp256k1_private_key_length.
+
+  (* the scalar of a secp256k1 private key must lie in [1, n-1] *)
+  Definition secp_scalar_ok (d : N) : bool := negb (d =? 0) && (d <? secp_n).
+
   (* helpers.go:DecodePrivateKey followed by Encode of the result.
      ed25519.NewPrivateKey: 64 bytes kept as they are; sr25519.NewPrivateKey: 32 bytes kept;
-     secp256k1.NewPrivateKey: 32 bytes -> big integer D (ToECDSAUnsafe returns nil when D = 0 or
-     D >= n and the code dereferences it) -> Encode = D left-padded to 32 bytes. *)
+     secp256k1.NewPrivateKey: 32 bytes -> big integer D; go-ethereum's ToECDSAUnsafe returns nil
+     when D = 0 or D >= n.  As repaired (fixes/C37-secp256k1-decode-invalid-scalar.patch)
+     PrivateKey.Decode returns an error then; otherwise Encode = D left-padded to 32 bytes. *)
   Definition decode_private_key (s : scheme) (b : list byte) : outcome (list byte) :=
     match s with
-    | Ed25519 => if (length b =? 64)%nat then Ok b else Err 3
-    | Sr25519 => if (length b =? 32)%nat then Ok b else Err 3
+    | Ed25519 => if (length b =? ed_len)%nat then Ok b else Err 3
+    | Sr25519 => if (length b =? sr_len)%nat then Ok b else Err 3
     | Secp256k1 =>
-      if (length b =? 32)%nat then
+      if (length b =? secp_len)%nat then
         let d := be_val b in
-        if (d =? 0) || (secp_n <=? d) then Panic else Ok (be_bytes 32 d)
+        if secp_scalar_ok d then Ok (be_bytes 32 d) else Err 4
       else Err 3
+    end.
+
+  (* before the repair PrivateKey.Decode dereferenced the nil key: a crash *)
+  Definition decode_private_key_prefix (s : scheme) (b : list byte) : outcome (list byte) :=
+    match s with
+    | Secp256k1 =>
+      if (length b =? secp_len)%nat then
+        let d := be_val b in
+        if secp_scalar_ok d then Ok (be_bytes 32 d) else Panic
+      else Err 3
+    | _ => decode_private_key s b
     end.
 
   (* which byte strings are encodings of a private key of the scheme *)
   Definition valid_key (s : scheme) (b : list byte) : bool :=
     match s with
-    | Ed25519 => (length b =? 64)%nat
-    | Sr25519 => (length b =? 32)%nat
-    | Secp256k1 => (length b =? 32)%nat && negb (be_val b =? 0) && (be_val b <? secp_n)
+    | Ed25519 => (length b =? ed_len)%nat
+    | Sr25519 => (length b =? sr_len)%nat
+    | Secp256k1 => (length b =? secp_len)%nat && secp_scalar_ok (be_val b)
     end.
 
   Definition encrypt_private_key (password nonce keybytes : list byte) : outcome (list byte) :=
@@ -72,8 +95,14 @@ Section Keystore.
     obind (decrypt_k key data) (decode_private_key s).
   Definition decrypt_private_key (password data : list byte) (s : scheme) : outcome (list byte) :=
     decrypt_private_key_k (key_of password) data s.
+  (* DecryptPrivateKey of the tree before fixes/C37-secp256k1-decode-invalid-scalar.patch (the
+     repaired Decrypt, the unchecked key decoder) and of the pinned tree (neither repair) *)
+  Definition decrypt_private_key_unchecked_k (key data : list byte) (s : scheme) : outcome (list byte) :=
+    obind (decrypt_k key data) (decode_private_key_prefix s).
+  Definition decrypt_private_key_unchecked (password data : list byte) (s : scheme) : outcome (list byte) :=
+    decrypt_private_key_unchecked_k (key_of password) data s.
   Definition decrypt_private_key_prefix (password data : list byte) (s : scheme) : outcome (list byte) :=
-    obind (decrypt_prefix password data) (decode_private_key s).
+    obind (decrypt_prefix password data) (decode_private_key_prefix s).
 End Keystore.
 
 (* ---- ciphertext mutations used by the correspondence harness and the tamper theorems ---- *)
@@ -95,6 +124,19 @@ Definition out_eqb (a b : outcome (list byte)) : bool :=
   | OutOfFuel, OutOfFuel => true
   | _, _ => false
   end.
+
+(* used by the vm_compute cross-check of the extraction: a result against an observed class
+   (0 ok + payload, 1 authentication error, 2 other error, 3 panic) *)
+Definition res_is (r : outcome (list byte)) (cls : N) (payload : list byte) : bool :=
+  match r with
+  | Ok p => (cls =? 0) && bytes_eqb p payload
+  | Err 1%nat => cls =? 1
+  | Err _ => cls =? 2
+  | Panic => cls =? 3
+  | OutOfFuel => false
+  end.
+Definition typed_res (t : N) (r : outcome (list byte)) : outcome (list byte) :=
+  match r with Ok k => Ok (n2b t :: k) | x => x end.
 
 Section Predicates.
   Variable cipher : list byte -> list byte -> list byte.
